@@ -24,7 +24,7 @@ ASSUMPTIONS = [
 
 
 def generate(rng, tier):
-    return gen.gen_case(rng, {"p_demux": 0.12, "p_mixed_pair": 0.02, "p_devnull": 0.05, "p_qbase64": 0.04, "p_quiet": 0.04, "p_nonascii_name": 0.04, "p_giant": 0.0008, "p_bam": 0.05})
+    return gen.gen_case(rng, {"p_demux": 0.12, "p_mixed_pair": 0.02, "p_devnull": 0.05, "p_qbase64": 0.04, "p_quiet": 0.04, "p_nonascii_name": 0.04, "p_giant": 0.0008, "p_bam": 0.05, "p_same_r2": 0.03})
 
 
 def evaluate(case, ctx):
@@ -86,6 +86,7 @@ def conformance(seed, k):
     for index in range(k):
         rng = engine.case_rng(seed, "C06conf", index)
         case = gen.gen_case(rng, {"p_demux": 0.12})
+        case["knobs"]["preexist"] = False  # (the real runs start in an empty directory)
         files = engine.gen_files(case)
         ctx = engine.Ctx(case)
         s1 = C.run_serial(case, ctx, files)
